@@ -57,7 +57,7 @@
  */
 void snoopy_error_handler (char const * const errorMsg)
 {
-    const snoopy_configuration_t * CFG;
+    snoopy_configuration_t * CFG;
     char errorMsgFormatted[SNOOPY_ERROR_MSG_BUF_SIZE];
     errorMsgFormatted[0] = '\0';
 
@@ -70,5 +70,9 @@ void snoopy_error_handler (char const * const errorMsg)
     snprintf(errorMsgFormatted, SNOOPY_ERROR_MSG_BUF_SIZE, "SNOOPY ERROR: %s", errorMsg);
     errorMsgFormatted[SNOOPY_ERROR_MSG_BUF_SIZE-1] = '\0';
 
+    // An output that fails while emitting this very record reports that through
+    // this handler too: do not recurse (endlessly) into it.
+    CFG->error_logging_enabled = SNOOPY_FALSE;
     snoopy_action_log_message_dispatch(errorMsg);
+    CFG->error_logging_enabled = SNOOPY_TRUE;
 }
